@@ -251,7 +251,22 @@ func genSiblingPair(r *Rng) (string, string, int, int) {
 	if r.Bool(0.3) {
 		cond = " WHERE " + genCond(r, "", 4)
 	}
-	switch r.Intn(10) {
+	switch r.Intn(12) {
+	case 10, 11:
+		// two expressions evaluated inside ONE expression against each of them on its own: evaluating
+		// the first must not change what the second one reads (rows of the group, of the record)
+		aggs := []string{"LISTAGG(s, ',') WITHIN GROUP (ORDER BY s DESC)", "LISTAGG(s, ',') WITHIN GROUP (ORDER BY v, id)", "JSON_AGG(s) WITHIN GROUP (ORDER BY id DESC)", "LISTAGG(s, ',')", "JSON_AGG(v)", "JSON_AGG(s)",
+			"LISTAGG(DISTINCT s, '|')", "STRING(COUNT(*))", "MIN(s)", "MAX(s)", "LISTAGG(STRING(id), '')", "STRING(usum(v))", "LISTAGG(s, ';') WITHIN GROUP (ORDER BY id % 3, s)", "STRING(COUNT(DISTINCT s))"}
+		rows := []string{"UPPER(s)", "JSON_OBJECT(s)", "JSON_OBJECT(v, s)", "STRING(id)", "s || STRING(g)", "LPAD(STRING(g), 3, '0')", "(SELECT MAX(y.s) FROM a y WHERE y.g = a.g)", "STRING(f(g, id))", "REPLACE(s, 'a', 'b')", "TRIM(s)", "STRING(v)"}
+		nz := func(e string) string { return "COALESCE(" + e + ", 'NULL')" }
+		if r.Bool(0.6) {
+			a1, a2 := aggs[r.Intn(len(aggs))], aggs[r.Intn(len(aggs))]
+			return fmt.Sprintf("SELECT g, %s AS x, %s AS y FROM a GROUP BY g;", nz(a1), nz(a2)),
+				fmt.Sprintf("SELECT g, %s || '~' || %s AS xy FROM a GROUP BY g;", nz(a1), nz(a2)), -1, 0
+		}
+		e1, e2 := rows[r.Intn(len(rows))], rows[r.Intn(len(rows))]
+		return fmt.Sprintf("SELECT id, %s AS x, %s AS y FROM a ORDER BY id;", nz(e1), nz(e2)),
+			fmt.Sprintf("SELECT id, %s || '~' || %s AS xy FROM a ORDER BY id;", nz(e1), nz(e2)), -1, 0
 	case 0, 1, 2, 3:
 		ord := r.PickS("", "", " ORDER BY id", " ORDER BY g, id")
 		return fmt.Sprintf("SELECT id, g, v, s, id AS i2, s AS s2 FROM a%s%s;", cond, ord),
@@ -757,8 +772,15 @@ func (c14) Eval(t *testing.T, c *Case, dec func(int) *Decider) *Outcome {
 		case strings.HasPrefix(ext, "ERROR") || ext == "":
 			o.Stats.probe("sibling-extension-failed")
 		default:
-			pa, ea := projectCSV(base, meta.SibHead, meta.SibTail)
-			pb, eb := projectCSV(ext, meta.SibHead, meta.SibTail)
+			var pa, pb string
+			var ea, eb error
+			if meta.SibHead < 0 {
+				pa, ea = concatCSV(base)
+				pb, eb = projectCSV(ext, 2, 0)
+			} else {
+				pa, ea = projectCSV(base, meta.SibHead, meta.SibTail)
+				pb, eb = projectCSV(ext, meta.SibHead, meta.SibTail)
+			}
 			if ea != nil || eb != nil {
 				o.Stats.probe("sibling-unparsable")
 			} else if pa != pb {
@@ -826,6 +848,32 @@ func projectCSV(out string, head, tail int) (string, error) {
 		b.WriteString(strings.Join(rec[:head], "\x1f"))
 		b.WriteString("\x1e")
 		b.WriteString(strings.Join(rec[len(rec)-tail:], "\x1f"))
+		b.WriteString("\n")
+	}
+	return b.String(), nil
+}
+
+// concatCSV turns the rows (k, x, y) of a CSV result set into (k, x~y), in the
+// form projectCSV gives for two leading columns.
+func concatCSV(out string) (string, error) {
+	rd := csv.NewReader(strings.NewReader(out))
+	rd.FieldsPerRecord = -1
+	rd.LazyQuotes = true
+	recs, err := rd.ReadAll()
+	if err != nil {
+		return "", err
+	}
+	var b strings.Builder
+	for i, rec := range recs {
+		if len(rec) < 3 {
+			return "", fmt.Errorf("short record")
+		}
+		v := rec[1] + "~" + rec[2]
+		if i == 0 {
+			v = "xy" // header
+		}
+		b.WriteString(rec[0] + "\x1f" + v)
+		b.WriteString("\x1e")
 		b.WriteString("\n")
 	}
 	return b.String(), nil
